@@ -109,6 +109,27 @@ pub fn zz_unsafe_slice_end(v: &Vec<u8>, a: usize, b: usize) -> u8 {
     if a <= v.len() { return v[a..b].len() as u8; }
     0
 }
+pub fn zz_unsafe_old_copy(v: &Vec<u8>, mut i: usize) -> u8 {
+    if i == 0 { return 0; }
+    let old = i;
+    i -= 1;
+    if i < v.len() { return v[old]; }
+    0
+}
+pub fn zz_unsafe_bound_moved(v: &[u8; 8], mut lo: usize) -> u8 {
+    let mut s = 0u8;
+    if lo > 4 { return 0; }
+    for i in (lo + 2..8).rev() { lo += 3; s = s.wrapping_add(v[i - lo]); }
+    s
+}
+pub fn zz_safe_bound_set_before(v: &[u8; 8], parts: &[u8]) -> u8 {
+    let mut lo = 0;
+    for p in parts { if *p == 0 { lo = 1; } }
+    let shift = 2;
+    let mut s = 0u8;
+    for i in (lo + shift..8).rev() { s = s.wrapping_add(v[i - shift]); }
+    s
+}
 pub fn zz_safe_guard(v: &Vec<u8>, i: usize) -> u8 {
     if i < v.len() { return v[i]; }
     0
